@@ -56,6 +56,9 @@ func (h ErrorHandler) ServeHTTP(w http.ResponseWriter, r *http.Request) (int, er
 			// Write error to response instead of to log (a status of 0 means
 			// the response has already been written, so it can only be logged)
 			w.Header().Set("Content-Type", "text/plain; charset=utf-8")
+			// the message replaces the body the handler may have announced before it gave up
+			w.Header().Del("Content-Length")
+			w.Header().Del("Content-Encoding")
 			w.WriteHeader(status)
 			fmt.Fprintln(w, errMsg)
 			return 0, err // returning 0 signals that a response has been written
@@ -99,6 +102,9 @@ func (h ErrorHandler) errorPage(w http.ResponseWriter, r *http.Request, code int
 		}
 		// Copy the page body into the response
 		w.Header().Set("Content-Type", contentType)
+		// the page replaces the body a handler may have announced before it gave up
+		w.Header().Del("Content-Length")
+		w.Header().Del("Content-Encoding")
 		w.WriteHeader(code)
 		_, err = io.Copy(w, errorPage)
 
